@@ -398,7 +398,7 @@ pub fn swarm(prop: Prop, r: &mut Rng, pools: &Pools, corpus_len: usize) -> Swarm
     // rare long-audio runs: thousands of frames / hundreds of thousands of samples, so that counters,
     // block sizes and tables sized for "typical" utterances are crossed
     let mut prelude: Vec<TOp> = Vec::new();
-    if matches!(prop, Prop::C02 | Prop::C03) && !heavy && r.chance(0.015) {
+    if matches!(prop, Prop::C02 | Prop::C03) && !heavy && r.chance(0.008) {
         let n = r.range(80, 120);
         let start = r.below(corpus_len - n);
         let long = Utt { lines: (start..start + n).map(|x| x as u32).collect(), timed: 0 };
@@ -406,7 +406,7 @@ pub fn swarm(prop: Prop, r: &mut Rng, pools: &Pools, corpus_len: usize) -> Swarm
         let v = VoiceRef::Gen(VoiceSpec { meta: metas[mi].0.clone(), body: pools.body(metas[mi].1, 0) });
         prelude.push(TOp { task: 0, op: Op::Load { e: 0, voices: vec![v], via_files: false } });
         prelude.push(TOp { task: 0, op: Op::Set { e: 0, s: Setter::Speed(*r.pick(&[0.25, 0.3, 0.5])) } });
-        prelude.push(TOp { task: 0, op: Op::Set { e: 0, s: Setter::Fperiod(*r.pick(&[60, 80, 120])) } });
+        prelude.push(TOp { task: 0, op: Op::Set { e: 0, s: Setter::Fperiod(*r.pick(&[60, 80, 120, 240, 480])) } });
         if prop == Prop::C02 {
             prelude.push(TOp { task: 0, op: Op::NewGen { e: 0, g: 0, utt: long.clone() } });
             prelude.push(TOp { task: 0, op: Op::Drain { g: 0, max: *r.pick(&[1023, 1024, 1100, 2500]) } });
